@@ -296,6 +296,30 @@ def c17_callbacks_typed(tier="quick", seed=0):
         [4, 3, 2, 1, 255, 8, 2, 8])
     run("typed.subarray-shares", "var t = new Int16Array([1,2,3,4]); var s = t.subarray(1,3); s[0] = 99; [t[1], s.length, s[1]]", [99, 2, 3])
     run("typed.out-of-range-ignored", "var t = new Int8Array(2); t[5] = 1; [t.length, t[5] === undefined]", [2, True])
+    # values that are not numbers are converted with ToNumber first (7.1.4), in every kind and through every way of storing
+    nn_js = "['7', ' 12 ', '0x10', '1e2', '', 'x', true, false, null, undefined, '-1.9', '300']"
+    nn_num = [7.0, 12.0, 16.0, 100.0, 0.0, math.nan, 1.0, 0.0, 0.0, math.nan, -1.9, 300.0]
+    for tn, (bits, signed) in TYPED.items():
+        want = [wrap(math.trunc(v), bits, signed) if v == v else 0 for v in nn_num]
+        run(f"typed.{tn}.non-number-stores", f"var vs = {nn_js}; var t = new {tn}(vs.length); for (var i = 0; i < vs.length; i++) t[i] = vs[i]; var u = new {tn}(vs); var w = new {tn}(vs.length); w.set(vs); "
+            "var o = []; for (i = 0; i < vs.length; i++) o.push([t[i], u[i], w[i]].join()); o", [f"{x},{x},{x}" for x in want])
+    run("typed.Float64Array.non-number-stores", f"var vs = {nn_js}; var t = new Float64Array(vs.length); for (var i = 0; i < vs.length; i++) t[i] = vs[i]; var o = []; for (i = 0; i < vs.length; i++) o.push(String(t[i])); o",
+        ["7", "12", "16", "100", "0", "NaN", "1", "0", "0", "NaN", "-1.9", "300"])
+    run("typed.Uint8ClampedArray.non-number-stores", f"var vs = {nn_js}; var t = new Uint8ClampedArray(vs); var o = []; for (var i = 0; i < vs.length; i++) o.push(t[i]); o", [clamp8(v) if v == v else 0 for v in nn_num])
+    # set(source, offset): all of the source lands at the offset, or RangeError and nothing is written
+    for off, want in (("0", "1,2,0,0"), ("2", "0,0,1,2"), ("1.9", "0,1,2,0"), ("undefined", "1,2,0,0"), ("NaN", "1,2,0,0"), ("3", "RangeError|0,0,0,0"), ("-1", "RangeError|0,0,0,0"), ("Infinity", "RangeError|0,0,0,0"), ("4", "RangeError|0,0,0,0"), ("'1'", "0,1,2,0")):
+        for srcjs in ("[1, 2]", "new Uint8Array([1, 2])", "new Float64Array([1, 2])"):
+            run(f"typed.set-offset.{off}.{srcjs[:6]}", f"var t = new Int16Array(4); var r = ''; try {{ t.set({srcjs}, {off}); }} catch (e) {{ r = e.name + '|'; }} r + t.join()", want)
+    # constructor forms
+    for src, want in (("new Uint8Array(new Int16Array([1, 2, 300])).join()", "1,2,44"), ("new Float64Array(new Uint8Array([1, 2])).join()", "1,2"), ("new Uint8Array('3').length", 3), ("new Uint8Array(null).length", 0),
+                      ("new Uint8Array(undefined).length", 0), ("new Uint8Array(true).length", 1), ("new Int16Array(new ArrayBuffer(8), 2).length", 3), ("new Int16Array(new ArrayBuffer(8), 2, 2).length", 2),
+                      ("new Int16Array(new ArrayBuffer(8), undefined, undefined).length", 4), ("new Int16Array(new ArrayBuffer(8), NaN).length", 4), ("new Int16Array(new ArrayBuffer(8), '2').length", 3),
+                      ("var r; try { new Int16Array(new ArrayBuffer(8), 1) } catch (e) { r = e.name } r", "RangeError"), ("var r; try { new Int16Array(new ArrayBuffer(8), 0, 5) } catch (e) { r = e.name } r", "RangeError"),
+                      ("var r; try { new Int16Array(new ArrayBuffer(8), -2) } catch (e) { r = e.name } r", "RangeError"), ("var r; try { new Int16Array(new ArrayBuffer(8), 10) } catch (e) { r = e.name } r", "RangeError"),
+                      ("var r; try { new Int16Array(new ArrayBuffer(7)) } catch (e) { r = e.name } r", "RangeError"), ("var r; try { new Int16Array(new ArrayBuffer(8), 0, Infinity) } catch (e) { r = e.name } r", "RangeError"),
+                      ("var r; try { new Int16Array(new ArrayBuffer(8), 1e21) } catch (e) { r = e.name } r", "RangeError"), ("var r; try { new Uint8Array(1e9) } catch (e) { r = e.name } r", "RangeError"),
+                      ("var r; try { new Array(4294967295) } catch (e) { r = e.name } r", "RangeError"), ("var r; try { var a = []; a.length = 2147483648 } catch (e) { r = e.name } r", "RangeError")):
+        run("typed.ctor." + "".join(ch if ch.isalnum() else "_" for ch in src)[:50], src, want)
     run("typed.ctor-negative-length", "var r; try { new Int8Array(-1) } catch(e) { r = e.name } r", "RangeError")
     run("typed.arraybuffer-negative", "var r; try { new ArrayBuffer(-1) } catch(e) { r = e.name } r", "RangeError")
     run("typed.set", "var t = new Uint8Array(4); t.set([1,2], 1); [t[0],t[1],t[2],t[3]]", [0, 1, 2, 0])
@@ -656,3 +680,147 @@ def c17_index_keys(tier="quick", seed=0):
         out.append(ob(f"C17.bounded.index-keys.{rname}", bad is None, "B", f"{n} (key spelling, operation) cases" if bad is None else f"[{bad[0]}] {bad[1]} -> {bad[2]!r}, ECMAScript {bad[3]!r}",
                       witness=(bad[1] if bad else None), confirmed=True if bad else None, domain=n))
     return out
+
+
+# ---- bounded: iteration methods whose callback changes the array, and thisArg -----------------------------------------------
+def _ref_iterate(method, arr, action, this_arg, init):
+    """ECMA-262 23.1.3 on a dense list: the length is read once, an index the callback removed meanwhile is skipped
+    (find / findIndex: visited with undefined), elements are read when their turn comes; returns (result, log, array after)"""
+    a = list(arr)
+    log = []
+    U = "U"
+
+    def cb(v, i):
+        log.append(f"{v}@{i}/{len(a)}:{this_arg}")
+        if action == "pop" and a:
+            a.pop()
+        elif action == "push" and len(a) < 12:
+            a.append(100 + i)
+        elif action == "clear":
+            del a[:]
+        elif action == "set-next" and i + 1 < len(a):
+            a[i + 1] = 77
+        elif action == "shift" and a:
+            a.pop(0)
+        return v
+    n = len(a)
+    if method == "forEach":
+        for i in range(n):
+            if i < len(a):
+                cb(a[i], i)
+        return U, log, a
+    if method == "map":
+        out = []
+        for i in range(n):
+            if i < len(a):
+                out.append(cb(a[i], i))
+        return out, log, a
+    if method == "filter":
+        out = []
+        for i in range(n):
+            if i < len(a):
+                v = a[i]
+                if cb(v, i) not in (0, U):
+                    out.append(v)
+        return out, log, a
+    if method in ("some", "every"):
+        for i in range(n):
+            if i < len(a):
+                t = cb(a[i], i) not in (0, U)
+                if method == "some" and t:
+                    return True, log, a
+                if method == "every" and not t:
+                    return False, log, a
+        return method == "every", log, a
+    if method in ("find", "findIndex"):
+        for i in range(n):
+            v = a[i] if i < len(a) else U
+            if cb(v, i) not in (0, U):
+                return (v if method == "find" else i), log, a
+        return (U if method == "find" else -1), log, a
+    if method in ("reduce", "reduceRight"):
+        idx = list(range(n)) if method == "reduce" else list(range(n - 1, -1, -1))
+        if init is None:
+            if not idx:
+                return "TypeError", log, a
+            acc = a[idx[0]]
+            idx = idx[1:]
+        else:
+            acc = init
+        for i in idx:
+            if i < len(a):
+                v = a[i]
+                log.append(f"{acc},{v}@{i}/{len(a)}")
+                if action == "pop" and a:
+                    a.pop()
+                elif action == "push" and len(a) < 12:
+                    a.append(100 + i)
+                elif action == "clear":
+                    del a[:]
+                elif action == "set-next" and i + 1 < len(a):
+                    a[i + 1] = 77
+                elif action == "shift" and a:
+                    a.pop(0)
+                acc = acc + v
+        return acc, log, a
+    raise ValueError(method)
+
+
+@groups.group(id="C17.bounded.mutating-callbacks", prop="C17", kind="B", functions=["microjs.vm:VM._make_array_method"])
+def c17_mutating_callbacks(tier="quick", seed=0):
+    """forEach / map / filter / some / every / find / findIndex / reduce / reduceRight whose callback removes, appends or
+    overwrites elements, and the optional thisArg: the (value, index, length, this) sequence seen by the callback, the
+    result and the final array against the specification's algorithm; sort with a comparator that touches the array
+    never raises a host exception"""
+    import json as _j
+    from microjs import Context
+    c = Context(time_limit=20)
+    acts = {"none": "", "pop": "arr.pop();", "push": "if (arr.length < 12) arr.push(100 + i);", "clear": "arr.length = 0;", "set-next": "if (i + 1 < arr.length) arr[i + 1] = 77;", "shift": "arr.shift();"}
+    arrays = [[], [1], [1, 2, 3], [5, 0, 6, 0, 7]]
+    bad = None
+    n = 0
+    for method in ("forEach", "map", "filter", "some", "every", "find", "findIndex"):
+        for arr in arrays:
+            for act, code in acts.items():
+                for this_js, this_tag in (("", "U"), (", 'T'", "T")):
+                    want = _ref_iterate(method, arr, act, this_tag, None)
+                    src = (f"var a = {_j.dumps(arr)}, log = []; var r = a.{method}(function (v, i, arr) {{ log.push((v === undefined ? 'U' : v) + '@' + i + '/' + arr.length + ':' + (this === undefined ? 'U' : this)); {code} return v; }}{this_js}); "
+                           "[r === undefined ? 'U' : r, log, a]")
+                    n += 1
+                    try:
+                        got = c.eval(src)
+                    except Exception as e:  # noqa
+                        got = "!" + type(e).__name__ + ": " + str(e)[:60]
+                        c = Context(time_limit=20)
+                    w = [want[0], want[1], want[2]]
+                    if got != w and bad is None:
+                        bad = (src, got, w)
+    for method in ("reduce", "reduceRight"):
+        for arr in arrays:
+            for act, code in acts.items():
+                for init_js, init in (("", None), (", 1000", 1000)):
+                    want = _ref_iterate(method, arr, act, "U", init)
+                    src = (f"var a = {_j.dumps(arr)}, log = []; var r; try {{ r = a.{method}(function (acc, v, i, arr) {{ log.push(acc + ',' + v + '@' + i + '/' + arr.length); {code} return acc + v; }}{init_js}); }} "
+                           "catch (e) { r = e.name } [r, log, a]")
+                    n += 1
+                    try:
+                        got = c.eval(src)
+                    except Exception as e:  # noqa
+                        got = "!" + type(e).__name__ + ": " + str(e)[:60]
+                        c = Context(time_limit=20)
+                    w = [want[0], want[1], want[2]]
+                    if got != w and bad is None:
+                        bad = (src, got, w)
+    for arr in arrays:
+        for code in ("a.push(1);", "a.pop();", "a.length = 0;", "a[0] = 9;", "a.reverse();"):
+            src = f"var a = {_j.dumps(arr)}; var r; try {{ a.sort(function (x, y) {{ {code} return x - y; }}); r = 'ok' }} catch (e) {{ r = e.name }} r"
+            n += 1
+            try:
+                got = c.eval(src)
+            except Exception as e:  # noqa
+                got = "!" + type(e).__name__ + ": " + str(e)[:60]
+                c = Context(time_limit=20)
+            if not isinstance(got, str) or got.startswith("!"):
+                bad = bad or (src, got, "no host exception")
+    return [ob("C17.bounded.mutating-callbacks", bad is None, "B", f"{n} (method, array, action, thisArg) cases" if bad is None else f"{bad[0][:260]} -> {str(bad[1])[:160]}, expected {str(bad[2])[:160]}",
+               witness=(bad[0] if bad else None), confirmed=True if bad else None, domain=n)]
